@@ -101,7 +101,7 @@ Definition tail_ok (tl : env) : Prop :=
 
 Ltac step :=
   cbn [exec eval lift seq rbind assign lookup update bind_tuple items String.eqb Ascii.eqb Bool.eqb
-       binop_vals cmp_vals truthy mixes_bool builtin1_val env3 Z.eqb Pos.eqb].
+       binop_vals binop_scalar cmp_vals cmp_scalar is_arr orb truthy mixes_bool builtin1_val env3 Z.eqb Pos.eqb].
 
 (* the inner while: two iterations *)
 Lemma add_while_exec ce fuel N B rp x0 x rpost k sv :
